@@ -37,6 +37,43 @@ def stamps(pid, tier, seed, wd, bins, out):
     out["summary"]["stamps"] = "4 functions x 65536 inputs x 2 builds compared (exhaustive)"
     out["samples"].append({"stamps_table_rows": ["32766 0 -32767 ...", "32767 0 -32768 ...", "-32768 1 p 0 p"]})
 
+def retirement_history():
+    """second history: two slots are worn out (32767 reuse cycles each) while bystanders stay live; then
+    (1) the first is retired while other slots are already free, more slots are freed afterwards and
+    allocations drain the free list (no slot may be lost, the arena may not grow while a reusable slot
+    exists); (2) the second, with a parent and a child, is removed as the middle of a removed subtree
+    (its links must be cleared although its slot is retired)."""
+    ops = ["hist 1"]
+    h = [0]       # next handle
+    v = [1]
+    def new():
+        ops.append("new %d" % v[0]); v[0] += 1; h[0] += 1; return h[0] - 1
+    by = [new() for _ in range(7)]                   # bystanders, handles 0..6
+    ops += ["qa", "qr"]
+    worn = []
+    for _ in range(2):
+        cur = None
+        for c in range(32767):
+            x = new()
+            ops.append("rem %d" % x)
+        cur = new()                                  # live node with generation 32767
+        ops += ["qa", "qr", "qf"]
+        worn.append(cur)
+    A, B = worn
+    # scenario 1
+    for st in ("rem %d" % by[0], "rem %d" % by[1], "rem %d" % A, "rem %d" % by[2]):
+        ops += [st, "qa", "qr", "qf", "drops"]
+    for _ in range(5):
+        new(); ops += ["qa", "qr", "qf"]
+    # scenario 2: by[3] -> B -> fresh child ; by[3] also gets by[4] as a later child
+    ops += ["app %d %d" % (by[3], B), "qa", "appv %d %d" % (B, v[0]), "qa", "app %d %d" % (by[3], by[4]), "qa", "qr"]
+    v[0] += 1; h[0] += 1
+    ops += ["qi %d" % by[3], "rst %d" % by[3], "qa", "qr", "qf", "drops"]
+    for _ in range(4):
+        new(); ops += ["qa", "qr", "qf"]
+    ops += ["ql", "end"]
+    return ops
+
 def stamp_law_broken(rows):
     """the property's own statement on the table: a live stamp s becomes a removed one; if reusable,
     reuse gives a stamp strictly greater than s (so no id is reissued); the last one is retired"""
@@ -78,6 +115,7 @@ def genwrap(pid, tier, seed, wd, bins, out):
             ops.append("new %d" % v); v += 1; ops.append("qa")
             ops.append("rem %d" % h); h += 1; ops.append("qa")
     ops += ["new %d" % v, "qa", "qr", "ql", "end"]
+    ops += retirement_history()
     for build in (("release",) if tier == "quick" else ("release", "debug")):
         r = vlib.run_ops_once(pid, wd, bins[build], build, ops, "genwrap-" + build)
         out["evaluations"] += r["stat"].get(pid, 0)
